@@ -81,6 +81,22 @@ Proof. vm_compute. reflexivity. Qed.
 Lemma resprior_quaternion_now_safe : run (case_resprior (Lay 2 1 true 0) 4 2 4) = Safe.
 Proof. vm_compute. reflexivity. Qed.
 
+(* ---- before c09dbd3: InitSurveillanceAreaGrid::initialize wrote x, 0, y, 0 into every state column whatever
+        its size; the states of the 1-D and 3-D motion models have 2 and 6 rows *)
+Definition p_grid_before_c09dbd3 (nx ny n : nat) (l : layout) : prog :=
+  when (n =? nx * ny)
+    (for_ nx (fun i => for_ ny (fun j =>
+       [ It e_grid "state().col(i*ny+j)" (Idx n (i * ny + j));
+         It e_grid "col<<x,0,y,0" (Comma (ldim l) 4) ]))).
+Lemma grid_state_2d_refuted : run (p_grid_before_c09dbd3 2 2 4 (Lay 2 0 false 0)) = Fails e_grid "col<<x,0,y,0".
+Proof. vm_compute. reflexivity. Qed.
+Lemma grid_state_6d_refuted : run (p_grid_before_c09dbd3 1 3 3 (Lay 6 0 false 0)) = Fails e_grid "col<<x,0,y,0".
+Proof. vm_compute. reflexivity. Qed.
+Lemma grid_state_not_4d_now_safe :
+  run (case_grid 2 2 4 (Lay 2 0 false 0)) = Safe /\ run (case_grid 1 3 3 (Lay 6 0 false 0)) = Safe /\
+  obs_grid 2 2 4 (Lay 2 0 false 0) = [0] /\ obs_grid 2 2 4 (Lay 4 0 false 0) = [1].
+Proof. repeat split; vm_compute; reflexivity. Qed.
+
 (* ---- before b8dad93: getNoiseSample drew a 4 x num buffer for every Dim (LinearModel: 2 x num for every m) *)
 Definition p_wna_noise_before_b8dad93 (D num : nat) : prog :=
   [ It e_wna_noise "sqrt_Q_*rand_vectors" (Mul (wna_d D) (wna_d D) 4 num) ].
